@@ -295,6 +295,7 @@ func (x *Exec) verifyFunction(fn *ssa.Function, fc *FuncContract, prop string, r
 	x.assumps = nil
 	x.recDone = map[*Term]bool{}
 	x.recDepth = map[string]int{}
+	x.absDivs = nil
 	fr := x.newFrame(fn, nil)
 	fr.top = true
 	fr.props = fc.Props
